@@ -59,10 +59,8 @@ var drainSizes = []int{1, 2, 3, 4096, 5000, 7}
 func generate(c *drv.Ctx) {
 	nTG := 0
 	nRand := 400
-	every := 200
 	if c.Tier == "thorough" {
-		nRand = 4000
-		every = 100
+		nRand = 3000
 	}
 	randDone := 0
 	emitRand := func() {
@@ -78,6 +76,7 @@ func generate(c *drv.Ctx) {
 		}
 		defer f.Close()
 		seen := map[string]struct{}{}
+		var lines []string
 		sc := bufio.NewScanner(f)
 		sc.Buffer(make([]byte, 1<<20), 1<<26)
 		for sc.Scan() {
@@ -86,6 +85,15 @@ func generate(c *drv.Ctx) {
 				continue
 			}
 			seen[line] = struct{}{}
+			lines = append(lines, line)
+		}
+		if err := sc.Err(); err != nil {
+			panic(err)
+		}
+		// the (large) random cases are spread evenly between the exported ones so that
+		// the trace chunks validated in parallel have similar sizes
+		every := len(lines)/nRand + 1
+		for _, line := range lines {
 			var inner string
 			if err := json.Unmarshal([]byte(line), &inner); err != nil {
 				panic(fmt.Sprintf("c17: bad script line %q: %v", line, err))
@@ -103,9 +111,6 @@ func generate(c *drv.Ctx) {
 			if nTG%every == 0 {
 				emitRand()
 			}
-		}
-		if err := sc.Err(); err != nil {
-			panic(err)
 		}
 	}
 	for randDone < nRand {
